@@ -72,7 +72,9 @@ def run_scenario(sc, variant, round_tag=""):
                 if hasattr(m, "dt"):
                     m.dt = shim
         ctxs = {}
-        for t in sc["turns"]:
+        for ti_, t in enumerate(sc["turns"]):
+            if sc.get("reboot_at") is not None and ti_ == sc["reboot_at"]:
+                env.reboot()  # a new process image of the engine: fresh state, boots from the snapshot directory
             now = "auto"
             if variant.get("now_none"):
                 now = None
